@@ -1,1 +1,55 @@
-From SF Require Import Base.Prelude Unsized.Types Unsized.Parse Unsized.Machine Unsized.Ops.
+(* C03 - Resizing never reads or writes outside the account's allocation.  Statements only.
+   In the machine every memory access is a function on the allocation (a byte list of length capacity):
+   an access outside it has the outcome Fault.  PROVED for ALL shapes: no operation changes the size of
+   the allocation (every write of add_bytes / remove_bytes / the notification broadcast lands inside it);
+   a pointer tree containing an address of another buffer fails check_pointers (swapped accessors are
+   reported no later than the end of the borrow, where the check runs).  PROVED for flat shapes: no Fault
+   and no pointer assertion in any history (C01_flat_run_refines yields Ok), growth beyond the allocation
+   is refused before any byte moves.  That the Rust pointer arithmetic realises the model's offsets is the
+   correspondence check with guard pages and canaries (partial label, DESIGN.md section 7). *)
+From SF Require Import Base.Prelude Gen.Generated Unsized.Types Unsized.Parse Unsized.Machine Unsized.Ops.
+From SF Require Import Unsized.Proofs.EncodeParse Unsized.Proofs.Mem Unsized.Proofs.Notify Unsized.Proofs.Flat.
+
+Theorem C03_notify_stays_in_allocation :
+  forall t p src c m p' m', notify t p src c m = Ok (p', m') -> zlen m' = zlen m.
+Proof. exact notify_len. Qed.
+
+Theorem C03_add_bytes_stays_in_allocation :
+  forall t s top src start amount s' top',
+    add_bytes t s top src start amount = Ok (s', top') -> m_cap s' = m_cap s.
+Proof. exact add_bytes_cap. Qed.
+
+Theorem C03_remove_bytes_stays_in_allocation :
+  forall t s top src start end_ s' top',
+    remove_bytes t s top src start end_ = Ok (s', top') -> m_cap s' = m_cap s.
+Proof. exact remove_bytes_cap. Qed.
+
+(* growth beyond the allocation (or refused by the data access) is InvalidRealloc, before any memmove *)
+Theorem C03_realloc_limit :
+  forall tsA tsB vsA vsB c lw items, length tsA = length vsA -> forall s top idx new,
+    Rep (tsA ++ TList c lw :: tsB) (vsA ++ VList items :: vsB) s top ->
+    0 <= idx <= zlen items -> zlen items + zlen new < 256 ^ Z.of_nat lw -> new <> [] ->
+    (m_refuse s = 1 \/ m_cap s < m_len s + Z.of_nat (fsize c) * zlen new) ->
+    list_insert (TStruct (tsA ++ TList c lw :: tsB)) s top [PF (length tsA)] idx new = Err E_REALLOC.
+Proof. exact list_insert_realloc_error. Qed.
+
+(* in a represented state the debug assertions before a resize and the drop-time assertion hold, also for
+   an empty trailing RemainingBytes of a buffer grown to its full allowance (D18) *)
+Theorem C03_flat_pointer_assertions_hold :
+  forall ts vs s top, Rep ts vs s top -> top_check s top = true.
+Proof. exact rep_top_check. Qed.
+
+(* accessors of another buffer are detected *)
+Theorem C03_check_pointers_in_range :
+  forall p lo hi cursor, lo <= hi -> fst (check_ptrs p lo hi cursor) = true -> Forall (fun a => lo <= a <= hi) (addrs p).
+Proof. exact check_ptrs_in_range. Qed.
+
+Theorem C03_swapped_accessor_detected :
+  forall p lo hi cursor a, lo <= hi -> In a (addrs p) -> (a < lo \/ hi < a) -> fst (check_ptrs p lo hi cursor) = false.
+Proof. exact foreign_pointer_detected. Qed.
+
+Example C03_nonvacuous :
+  (* a struct pointer of buffer [0,100) in which the second field was swapped with one of buffer [1000,1100) *)
+  fst (check_ptrs (PStruct [PList 0 4; PList 1008 3; PRem 20 0]) 0 100 0) = false /\
+  fst (check_ptrs (PStruct [PList 0 4; PList 8 3; PRem 100 0]) 0 100 0) = true.
+Proof. vm_compute. split; reflexivity. Qed.
